@@ -1,5 +1,6 @@
 (* Stream/Proofs.v — StreamLexer refines a cursor over the completely read input (C13). *)
 From Verif Require Import Common.Base Common.Tactics Stream.Model Stream.Spec Stream.Lemmas.
+From Verif Require Cursor.Model Cursor.Proofs.
 From Coq Require Import ZifyBool.
 
 (* ---- the pool only matters through: ids stay inside the heap, swap returns enough room ---- *)
@@ -306,6 +307,118 @@ Proof.
   intros I E1 E2 E3 E4 E5. destruct I. constructor; unfold buf_bytes in *; rewrite ?E1, ?E2, ?E3, ?E4, ?E5; assumption.
 Qed.
 
+(* one Peek, as used by Peek and by PeekRune *)
+Lemma peek_refines data s c i :
+  Rel data s c -> cst c <= cps c + i ->
+  exists s1, stream_peek s i = Some (byte_at data (cps c + i), s1) /\ Rel data s1 (hwup c (cps c + i + 1)).
+Proof.
+  intros (base & I & Hd & Hst & Hps & Hpv & S0 & B1 & B2 & B3) G.
+  pose proof (i_len _ _ _ I) as Ilen. pose proof (i_in _ _ _ I) as Iin. pose proof (i_base _ _ _ I) as Ibase.
+  unfold stream_peek.
+  destruct ((0 <=? spos s + i) && (spos s + i <? slen (sbuf s))) eqn:InB.
+  - b2p. rewrite (inv_peek_in data base s (spos s + i) I) by lia.
+    exists s. split; [do 3 f_equal; rewrite Hps; lia|].
+    apply (Rel_intro data s _ base); unfold hwup; cbn [cdat cst cps chw cprev]; auto; try lia.
+  - assert (Hp : slen (sbuf s) <= spos s + i).
+    { apply andb_false_iff in InB. destruct InB; b2p; lia. }
+    destruct (Z.eq_dec (serr s) 0) as [E0|En].
+    + destruct (read_ok data base s (spos s + i) I E0 ltac:(lia) Hp)
+        as (s' & ER & I' & N1 & N2 & N3 & N4 & N5).
+      rewrite ER. exists s'. split; [do 3 f_equal; rewrite Hps; lia|].
+      apply (Rel_intro data s' _ (base + sstart s)); unfold hwup; cbn [cdat cst cps chw cprev]; rewrite ?N1, ?N2, ?N3; auto; try lia.
+      rewrite Hd. lia.
+    + unfold stream_read. replace (serr s =? 0) with false by (symmetry; apply Z.eqb_neq; exact En).
+      cbn [negb]. pose proof (i_end _ _ _ I En) as Hend.
+      exists s. split.
+      * do 3 f_equal. rewrite byte_at_out; [reflexivity|]. lia.
+      * apply (Rel_intro data s _ base); unfold hwup; cbn [cdat cst cps chw cprev]; auto; try lia. rewrite Hd. lia.
+Qed.
+
+Lemma hwup_hwup c a b : a <= b -> hwup (hwup c a) b = hwup c b.
+Proof. intros H. unfold hwup. cbn [cdat cst cps chw cprev cfreed]. f_equal. lia. Qed.
+
+Lemma byte_at_of_peekz data q x : 0 <= q -> peekz data q = Some x -> byte_at data q = x.
+Proof.
+  intros Hq H. pose proof (peekz_some _ _ _ H) as R. rewrite byte_at_in by lia. unfold getz. rewrite H. reflexivity.
+Qed.
+
+(* PeekRune on a valid UTF-8 sequence (or at the end): the RFC 3629 code point and length *)
+Lemma peekrune_refines data s c i c1 obs :
+  Rel data s c -> sspec_step c (SPeekRune i) = Some (c1, obs) ->
+  exists r k s1, stream_peek_rune s i = Some (r, k, s1) /\ obs = [r; k] /\ Rel data s1 c1.
+Proof.
+  intros HR Hs. cbn [sspec_step] in Hs.
+  assert (Hd : cdat c = data) by (destruct HR as (b0 & _ & H & _); exact H).
+  destruct (cst c <=? cps c + i) eqn:G; [|discriminate]. b2p.
+  set (q := cps c + i) in *.
+  destruct (peek_refines data s c i HR G) as (s0 & P0 & R0). fold q in P0, R0.
+  unfold stream_peek_rune. rewrite P0. cbn [option_bind].
+  destruct (len (cdat c) <=? q) eqn:End.
+  { b2p. inversion Hs; subst c1 obs. rewrite byte_at_out by (rewrite <- Hd; lia).
+    change (0 <? 192) with true. cbv iota. exists 0, 1, s0. auto. }
+  b2p. rewrite Hd in *.
+  destruct (Cursor.Model.utf8_decode (skipz q data)) as [[r k]|] eqn:Dec; [|discriminate].
+  inversion Hs; subst c1 obs. clear Hs.
+  assert (Hq0 : 0 <= q). { destruct HR as (b0 & I & _ & E1 & _ & _ & S0 & _). pose proof (i_base _ _ _ I). lia. }
+  unfold Cursor.Model.utf8_decode in Dec.
+  destruct (skipz q data) as [|c0 t] eqn:E0; [discriminate|].
+  destruct (Cursor.Proofs.skipz_cons_peek data q c0 t Hq0 E0) as (K0 & E1 & L0).
+  rewrite (byte_at_of_peekz data q c0 Hq0 K0).
+  destruct ((0 <=? c0) && (c0 <=? 127)) eqn:A1.
+  { inversion Dec; subst. b2p. replace (r <? 192) with true by (symmetry; apply Z.ltb_lt; lia). cbv iota.
+    exists r, 1, s0. auto. }
+  destruct t as [|c1' t1]; [discriminate|].
+  destruct (Cursor.Proofs.skipz_cons_peek data (q + 1) c1' t1 ltac:(lia) E1) as (K1 & E2 & L1).
+  assert (G1 : cst (hwup c (q + 1)) <= cps (hwup c (q + 1)) + (i + 1)) by (unfold hwup; cbn; lia).
+  destruct (peek_refines data s0 (hwup c (q + 1)) (i + 1) R0 G1) as (s1 & P1 & R1).
+  replace (cps (hwup c (q + 1)) + (i + 1)) with (q + 1) in P1, R1 by (unfold hwup, q; cbn; lia).
+  rewrite (byte_at_of_peekz data (q + 1) c1' ltac:(lia) K1) in P1.
+  rewrite hwup_hwup in R1 by lia.
+  destruct ((194 <=? c0) && (c0 <=? 223) && Cursor.Model.cont c1') eqn:A2.
+  { inversion Dec; subst. b2p.
+    replace (c0 <? 192) with false by (symmetry; apply Z.ltb_ge; lia). cbv iota.
+    rewrite P1. cbn [option_bind].
+    replace (c0 <? 224) with true by (symmetry; apply Z.ltb_lt; lia). cbv iota.
+    exists ((c0 - 192) * 64 + (c1' - 128)), 2, s1. split; [|split; [reflexivity|]].
+    - do 3 f_equal. change (srune2 c0 c1') with (Cursor.Model.rune2 c0 c1'). apply Cursor.Proofs.rune2_arith; [lia|assumption].
+    - replace (q + 2) with (q + 1 + 1) by lia. exact R1. }
+  destruct t1 as [|c2 t2]; [discriminate|].
+  destruct (Cursor.Proofs.skipz_cons_peek data (q + 1 + 1) c2 t2 ltac:(lia) E2) as (K2 & E3 & L2).
+  assert (G2 : cst (hwup c (q + 1 + 1)) <= cps (hwup c (q + 1 + 1)) + (i + 2)) by (unfold hwup; cbn; lia).
+  destruct (peek_refines data s1 (hwup c (q + 1 + 1)) (i + 2) R1 G2) as (s2 & P2 & R2).
+  replace (cps (hwup c (q + 1 + 1)) + (i + 2)) with (q + 1 + 1) in P2, R2 by (unfold hwup, q; cbn; lia).
+  rewrite (byte_at_of_peekz data (q + 1 + 1) c2 ltac:(lia) K2) in P2.
+  rewrite hwup_hwup in R2 by lia.
+  match type of Dec with (if ?b then _ else _) = _ => destruct b eqn:A3 end.
+  { inversion Dec; subst. b2p.
+    replace (c0 <? 192) with false by (symmetry; apply Z.ltb_ge; lia). cbv iota.
+    rewrite P1. cbn [option_bind].
+    replace (c0 <? 224) with false by (symmetry; apply Z.ltb_ge; lia). cbv iota.
+    rewrite P2. cbn [option_bind].
+    replace (c0 <? 240) with true by (symmetry; apply Z.ltb_lt; lia). cbv iota.
+    eexists _, 3, s2. split; [|split; [reflexivity|]].
+    - do 3 f_equal. change (srune3 c0 c1' c2) with (Cursor.Model.rune3 c0 c1' c2). apply Cursor.Proofs.rune3_arith; [lia|assumption|assumption].
+    - replace (q + 3) with (q + 1 + 1 + 1) by lia. exact R2. }
+  destruct t2 as [|c3 t3]; [discriminate|].
+  destruct (Cursor.Proofs.skipz_cons_peek data (q + 1 + 1 + 1) c3 t3 ltac:(lia) E3) as (K3 & E4 & L3).
+  assert (G3 : cst (hwup c (q + 1 + 1 + 1)) <= cps (hwup c (q + 1 + 1 + 1)) + (i + 3)) by (unfold hwup; cbn; lia).
+  destruct (peek_refines data s2 (hwup c (q + 1 + 1 + 1)) (i + 3) R2 G3) as (s3 & P3 & R3).
+  replace (cps (hwup c (q + 1 + 1 + 1)) + (i + 3)) with (q + 1 + 1 + 1) in P3, R3 by (unfold hwup, q; cbn; lia).
+  rewrite (byte_at_of_peekz data (q + 1 + 1 + 1) c3 ltac:(lia) K3) in P3.
+  rewrite hwup_hwup in R3 by lia.
+  match type of Dec with (if ?b then _ else _) = _ => destruct b eqn:A4 end; [|discriminate].
+  inversion Dec; subst. b2p.
+  replace (c0 <? 192) with false by (symmetry; apply Z.ltb_ge; lia). cbv iota.
+  rewrite P1. cbn [option_bind].
+  replace (c0 <? 224) with false by (symmetry; apply Z.ltb_ge; lia). cbv iota.
+  rewrite P2. cbn [option_bind].
+  replace (c0 <? 240) with false by (symmetry; apply Z.ltb_ge; lia). cbv iota.
+  rewrite P3. cbn [option_bind].
+  eexists _, 4, s3. split; [|split; [reflexivity|]].
+  - do 3 f_equal. change (srune4 c0 c1' c2 c3) with (Cursor.Model.rune4 c0 c1' c2 c3). apply Cursor.Proofs.rune4_arith; [lia|assumption|assumption|assumption].
+  - replace (q + 4) with (q + 1 + 1 + 1 + 1) by lia. exact R3.
+Qed.
+
 Lemma sstep_refines data s c o c1 obs :
   Rel data s c -> sspec_step c o = Some (c1, obs) ->
   exists s1 u, sstep s o = Some (s1, obs, u) /\ Rel data s1 c1.
@@ -335,6 +448,10 @@ Proof.
         eexists s, None. split.
         -- do 4 f_equal. rewrite byte_at_out; [reflexivity|]. rewrite Hd. lia.
         -- apply (Rel_intro data s _ base); cbn [cdat cst cps chw cprev]; auto; try lia. rewrite Hd. lia.
+  - (* PeekRune *)
+    destruct (peekrune_refines data s c i c1 obs (ex_intro _ base (conj I (conj Hd (conj Hst (conj Hps (conj Hpv (conj S0 (conj B1 (conj B2 B3))))))))) Hs)
+      as (r & k & s1 & E & Eo & R1).
+    cbn [sstep]. rewrite E. cbn [option_bind]. subst obs. eexists s1, None. split; [reflexivity|exact R1].
   - (* Move *)
     destruct ((cst c <=? cps c + n) && (cps c + n <=? chw c)) eqn:G; [|discriminate]. b2p.
     inversion Hs; subst c1 obs. cbn [sstep]. eexists _, None. split; [reflexivity|].
